@@ -1313,6 +1313,9 @@ class TLSConnection(TLSRecordLayer):
                                                "an (EC)DH group")
         if sr_kex:
             sr_kex = sr_kex.server_share
+            if sr_kex is None:
+                raise TLSDecodeError("Empty key_share extension in "
+                                     "Server Hello")
             self.ecdhCurve = sr_kex.group
             cl_key_share_ex = clientHello.getExtension(ExtensionType.key_share)
             cl_kex = next((i for i in cl_key_share_ex.client_shares
